@@ -41,7 +41,7 @@ class Case:
         nm = arg.get('num_max', 9)
         self.x = w.fresh_int('X', 1, nm) if arg.get('sym_xy') else 1
         self.y = w.fresh_int('Y', 1, nm) if arg.get('sym_xy') else 2
-        self.z = w.fresh_int('Z', arg.get('z_min', 1), nm)
+        self.z = w.fresh_int('Z', *arg['z_range']) if arg.get('z_range') else w.fresh_int('Z', arg.get('z_min', 1), nm)
         self.has_dist = w.fresh_int('has_dist', 0, 1)
         self.dist = w.fresh_int('dist', 0, arg.get('dist_max', 9))
         self.has_dirty = w.fresh_int('has_dirty', 0, 1)
@@ -136,6 +136,8 @@ def run_flow(ctx, arg, case):
     I, w = ctx.I, ctx.w
     import models_chrono as MC
     MC.NOW_MAX[0] = MC.END_2199 - 1 if arg.get('now_full') else 2**32 - 1
+    import models_std as MS
+    MS.HASH_RANGE[0] = arg.get('hash_min', 0)
     fa = flow_args(I, w, arg)
     common = fget(fa, FLOW_FIELDS, 'overrides').fields[0]
     bumps0 = I.call('<BumpsConfig as Default>::default', [])
@@ -162,9 +164,12 @@ def run_flow(ctx, arg, case):
     return r2, fa, cur
 
 
-def rendered(I, zerv, fmt):
+def rendered(I, zerv, fmt, text=True):
     ty = 'SemVer' if fmt == 'semver' else 'PEP440'
     v = I.call('<%s as From<Zerv>>::from' % ty, [deep_copy(zerv)])
+    if not text:
+        # the order obligations are judged on the record; the text is only rendered (concretely) for a report
+        return v, None
     return v, chars_of(I.call('<%s as ToString>::to_string' % ty, [ValPtr(v)]))
 
 
@@ -203,16 +208,33 @@ def path_order(ctx, arg):
         return
     zerv = r2.fields[0]
     ctx.tag('flow_ok')
-    for fmt in ('semver', 'pep440'):
-        v, txt = rendered(I, zerv, fmt)
+    for fmt in arg.get('fmts', ('semver', 'pep440')):
+        clean = arg.get('state') == 'clean_at_tag'
+        v, txt = rendered(I, zerv, fmt, text=clean)
         m0 = w.get_model()
-        ctx.res.witness = dict(case=case.concrete(m0), out=mstr(m0, txt), fmt=fmt)
+        ctx.res.witness = dict(case=case.concrete(m0), out=mstr(m0, txt) if clean else None, fmt=fmt)
         base = [case.x, case.y, case.z]
         if arg.get('state') == 'clean_at_tag':
             from models_fmt import int_to_chars
             exp = int_to_chars(I, case.x) + [46] + int_to_chars(I, case.y) + [46] + int_to_chars(I, case.z)
             if case.pre is not None:
-                return      # pre-release tags: see path_pre_tag
+                # a pre-release tag of flow's own shape X.Y.Z-<label>.<n>[.post.<p>] comes back unchanged
+                lab = case.pre[0]
+                if fmt == 'semver':
+                    exp = exp + [45] + [ord(c) for c in lab] + [46] + int_to_chars(I, case.pre_n)
+                    post_txt = [ord(c) for c in '.post.']
+                else:
+                    exp = exp + [ord(c) for c in {'alpha': 'a', 'beta': 'b', 'rc': 'rc'}[lab]] + int_to_chars(I, case.pre_n)
+                    post_txt = [ord(c) for c in '.post']
+                if arg.get('tag_post') and w.branch(case.has_post == 1):
+                    exp = exp + post_txt + int_to_chars(I, case.post)
+                m = c06.text_diff(w, txt, exp)
+                if m is not None:
+                    ctx.violation(clause='clean_pre_tag_changed', case=case.concrete(m), arg=arg, fmt=fmt, out=mstr(m, txt),
+                                  detail='clean checkout at a pre-release tag of flow\'s shape does not yield the tag unchanged', vkey='clean_pre|' + fmt)
+                else:
+                    ctx.tag('clean_pre_exact')
+                continue
             if (arg.get('schema') or '').endswith('context') and arg.get('schema') != 'standard-no-context':
                 # an explicit *-context schema appends build metadata by request: the version proper must be X.Y.Z
                 cut = [i for i, c in enumerate(txt) if isinstance(c, int) and c == 43]
@@ -255,7 +277,7 @@ def path_order(ctx, arg):
             bad = z3.Or(lo <= 0, hi >= 0)
         m = w.find(bad)
         if m is not None:
-            ctx.violation(clause='not_between', case=case.concrete(m), arg=arg, fmt=fmt, out=mstr(m, txt),
+            ctx.violation(clause='not_between', case=case.concrete(m), arg=arg, fmt=fmt, out=None,
                           detail='V is not strictly between X.Y.Z and X.Y.(Z+1)', vkey='between|' + fmt)
         else:
             ctx.tag('between')
@@ -427,8 +449,18 @@ def flow_cases(tier):
     out.append(dict(name='flags', state='moved', rules='short', branch=list('main'), label='rc', num=4, mode='tag'))
     out.append(dict(name='flags', state='moved', rules='short', branch=list('main'), dirty_flag=True))
     out.append(dict(name='flags', state='moved', rules='short', branch=list('rl/1'), no_dirty_flag=True))
+    # patch numbers around the u32 boundary (SemVer output; PEP 440 cannot carry them: C07's recorded finding)
+    for st in ('clean_at_tag', 'moved'):
+        out.append(dict(name='big_patch', state=st, rules='short', branch=list('main'), z_range=(2**32 - 3, 2**32 + 2), fmts=('semver',)))
+    # clean checkout at a pre-release tag of flow's own shapes
+    for lab in ('alpha', 'beta', 'rc'):
+        for b in ([list('main')] if q else [None, list('main'), list('rl/2'), list('dv')]):
+            for mode in ((None,) if q else (None, 'tag', 'commit')):
+                out.append(dict(name='pre_tag', state='clean_at_tag', rules='short', branch=b, mode=mode, tag_pre=(lab, True), tag_post=True))
     if not q:
         out = [dict(a, sym_xy=True) for a in out]
+    else:
+        out = [dict(a, hash_min=10**19) for a in out]
     for hl in ((1, 9) if q else range(1, 10)):
         out.append(dict(name='hashlen', state='moved', rules='short', branch=list('main'), hash_len=hl))
     return out
